@@ -8,7 +8,7 @@ res = {}
 for pid in ids:
     for pd in sorted(glob.glob(os.path.join(base, pid, '*', 'patch.diff'))):
         k = os.path.basename(os.path.dirname(pd))
-        scr = '/tmp/seedscr'
+        scr = '/tmp/seedscr' + os.environ.get('SEED_SLOT', '')
         shutil.rmtree(scr, ignore_errors=True)
         os.makedirs(scr)
         subprocess.run('git -C /repo archive HEAD | tar -x -C %s' % scr, shell=True, check=True)
